@@ -448,10 +448,26 @@ def run(ctx):
             if not fdef:
                 ctx.lost("columns", fn_name)
                 continue
+            # the column list handed to `DataFrame.from_records(.., columns=<expr>)`: a list / tuple literal, a name bound once to one
+            # in the function or at module level, possibly wrapped in list(..) / tuple(..)
+            def py_seq(node, depth=0):
+                if depth > 4 or node is None:
+                    return None
+                if isinstance(node, (ast.List, ast.Tuple)) and all(isinstance(e, ast.Constant) for e in node.elts):
+                    return [e.value for e in node.elts]
+                if isinstance(node, ast.Call) and isinstance(node.func, ast.Name) and node.func.id in ("list", "tuple") and len(node.args) == 1:
+                    return py_seq(node.args[0], depth + 1)
+                if isinstance(node, ast.Name):
+                    binds = [n for scope in (fdef[0], tree) for n in (ast.walk(scope) if scope is fdef[0] else scope.body)
+                             if isinstance(n, ast.Assign) and any(isinstance(t, ast.Name) and t.id == node.id for t in n.targets)]
+                    if len(binds) == 1:
+                        return py_seq(binds[0].value, depth + 1)
+                return None
             cols = None
-            for node in ast.walk(fdef[0]):
-                if isinstance(node, ast.Assign) and any(isinstance(t, ast.Name) and t.id == "columns" for t in node.targets) and isinstance(node.value, ast.List):
-                    cols = [e.value for e in node.value.elts if isinstance(e, ast.Constant)]
+            fr = [n for n in ast.walk(fdef[0]) if isinstance(n, ast.Call) and isinstance(n.func, ast.Attribute) and n.func.attr == "from_records"]
+            if len(fr) == 1:
+                kw = [k.value for k in fr[0].keywords if k.arg == "columns"]
+                cols = py_seq(kw[0]) if len(kw) == 1 else None
             want = [ALIAS.get(x, x) for x in layouts[cast]]
             where = "src/bourse/data_processing.py:%d (%s)" % (fdef[0].lineno, fn_name)
             if cols is None:
